@@ -136,6 +136,212 @@ theorem C06_bytes (p : Policy) (hp : Plain p.ensureInit) (hs : p.ensureInit.addS
   rw [hb, tokenize_renderAll toks hseg, textOf_coalesce]
   simpa using htext
 
+/-! ### the added-space clause -/
+
+/-- what a quiet iteration on a tag writes when spaces are added: exactly one token, the tag or
+    one space -/
+theorem quiet_tag_step_sp {p : Policy} (hp : Plain p) (hs : p.addSpaces = true) {st : LoopState} {t : Token}
+    (hwf : TokWF t) (hq : Quiet st) (hc : CalmTok p t) (htag : isTag t = true)
+    {st' : LoopState} {ws : List Write} (h : p.step st t = some (st', ws)) :
+    ∃ k : Token, ws.map (·.data) = [k.render] ∧ SegOK k ∧ ((k.tt = .text ∧ k.data = [32]) ∨ isTag k = true) := by
+  obtain ⟨toks, hr, hf⟩ := emit_toks hp hwf (step_emit p st t st' ws h)
+  obtain ⟨hss, _⟩ := hc htag
+  have hsp : p.space = [⟨[32]⟩] := by simp [Policy.space, hs]
+  have hone : ∃ w, ws = [w] := by
+    unfold Policy.step at h
+    unfold isTag at htag
+    split at h
+    · rename_i htt; rw [htt] at htag; exact absurd htag (by decide)
+    · rename_i htt; rw [htt] at htag; exact absurd htag (by decide)
+    · unfold Policy.stepStart at h
+      simp only [hss, Bool.false_and, Bool.false_eq_true, ↓reduceIte] at h
+      repeat' split at h
+      all_goals (simp at h)
+      all_goals (obtain ⟨_, rfl⟩ := h)
+      · exact ⟨_, hsp⟩
+      · exact ⟨_, hsp⟩
+      · unfold emitUnlessSkipping
+        have : (markKept { st with mostRecentlyStartedToken := t.data } t.data).skipElementContent = false := by
+          unfold markKept; split <;> exact hq.1
+        simp [this]
+    · unfold Policy.stepEnd at h
+      have hcr : (clearRecent st t.data).skipElementContent = false := by
+        unfold clearRecent; split <;> exact hq.1
+      generalize clearRecent st t.data = st1 at h hcr
+      simp only [hss, Bool.false_and, Bool.false_eq_true, ↓reduceIte] at h
+      repeat' split at h
+      all_goals (simp at h)
+      all_goals (obtain ⟨_, rfl⟩ := h)
+      · exact ⟨_, hsp⟩
+      · exact ⟨_, hsp⟩
+      · unfold emitUnlessSkipping
+        have : (p.leaveSkip (popMarker st1 t.data) t.data).skipElementContent = false := by
+          have h1 : (popMarker st1 t.data).skipElementContent = false := by
+            unfold popMarker; split <;> exact hcr
+          unfold Policy.leaveSkip; split
+          · simp only; split
+            · rfl
+            · exact h1
+          · exact h1
+        simp [this]
+    · unfold Policy.stepSelfClosing at h
+      simp only [hss, Bool.false_and, Bool.false_eq_true, ↓reduceIte] at h
+      repeat' split at h
+      all_goals (simp at h)
+      all_goals (obtain ⟨_, rfl⟩ := h)
+      · exact ⟨_, hsp⟩
+      · exact ⟨_, hsp⟩
+      · unfold emitUnlessSkipping; simp [hq.1]
+    · rename_i htt; rw [htt] at htag; exact absurd htag (by decide)
+  obtain ⟨w, rfl⟩ := hone
+  -- one write, hence one token
+  cases toks with
+  | nil => simp at hr
+  | cons k rest =>
+    cases rest with
+    | cons _ _ => simp at hr
+    | nil =>
+      refine ⟨k, by simpa using hr, (hf k (by simp)).1, ?_⟩
+      obtain ⟨_, hor⟩ := hf k (by simp)
+      rcases hor with ⟨hkt, (⟨hd, _⟩ | ⟨ht, _⟩)⟩ | ⟨hkt, _⟩
+      · exact .inl ⟨hkt, hd⟩
+      · unfold isTag at htag
+        rw [ht] at htag; exact absurd htag (by decide)
+      · right
+        unfold isTag at htag ⊢
+        rw [hkt]; exact htag
+
+theorem tagCount_cons (t : Token) (ts : List Token) :
+    tagCount (t :: ts) = (if isTag t then 1 else 0) + tagCount ts := by
+  unfold tagCount
+  by_cases h : isTag t = true <;> simp [List.filter_cons, h, Nat.add_comm]
+
+theorem tagCount_append (a b : List Token) : tagCount (a ++ b) = tagCount a + tagCount b := by
+  simp [tagCount, List.filter_append]
+
+theorem noSpaces_append (a b : Bytes) : noSpaces (a ++ b) = noSpaces a ++ noSpaces b := by
+  simp [noSpaces, List.filter_append]
+
+/-- merging adjacent texts does not change the number of tags -/
+theorem tagCount_coalesce : ∀ (ts : List Token) (d : Bytes), tagCount (coalesce d ts) = tagCount ts
+  | [], d => by
+    simp only [coalesce, flushText]
+    split <;> simp [tagCount, isTag, tt_beq]
+  | t :: ts, d => by
+    simp only [coalesce]
+    split
+    · rename_i h
+      have ht : t.tt = .text := by revert h; cases t.tt <;> intro h <;> first | rfl | exact absurd h (by decide)
+      rw [tagCount_coalesce ts, tagCount_cons]
+      simp [isTag, ht, tt_beq]
+    · have hflush : tagCount (flushText d) = 0 := by
+        unfold flushText; split <;> simp [tagCount, isTag, tt_beq]
+      rw [tagCount_append, hflush, tagCount_cons, tagCount_cons, tagCount_coalesce ts]
+      simp
+
+/-- the measure of C06's added-space clause: text length plus number of tags, and the text with
+    its spaces removed -/
+theorem run_text_sp {p : Policy} (hp : Plain p) (hs : p.addSpaces = true) (ts : List Token)
+    (hwf : ∀ t ∈ ts, TokWF t) (hc : ∀ t ∈ ts, CalmTok p t) :
+    ∀ st, Quiet st → StackInv st → ∃ toks : List Token,
+      (p.run st ts).1.map (·.data) = toks.map Token.render ∧ (∀ k ∈ toks, SegOK k) ∧
+      (textOf toks).length + tagCount toks = (textOf ts).length + tagCount ts ∧
+      noSpaces (textOf toks) = noSpaces (textOf ts) := by
+  induction ts with
+  | nil => intro st _ _; exact ⟨[], by simp [Policy.run], by simp, rfl, rfl⟩
+  | cons t ts ih =>
+    intro st hq hi
+    obtain ⟨st', ws, hstep, hi'⟩ := step_safe p st t (tokWF_nameOK (hwf t (by simp))) hi
+    have hq' := step_quiet p st t st' ws hstep hq (hc t (by simp))
+    obtain ⟨k2, hr2, hs2, hm2, hn2⟩ :=
+      ih (fun x hx => hwf x (by simp [hx])) (fun x hx => hc x (by simp [hx])) st' hq' hi'
+    -- what this iteration writes
+    have hthis : ∃ k1 : List Token, ws.map (·.data) = k1.map Token.render ∧ (∀ k ∈ k1, SegOK k) ∧
+        (textOf k1).length + tagCount k1 = (textOf [t]).length + tagCount [t] ∧
+        noSpaces (textOf k1) = noSpaces (textOf [t]) := by
+      by_cases htt : t.tt = .text
+      · have := text_written_once p st t htt hq.1 hq.2
+        rw [this] at hstep
+        simp only [Option.some.injEq, Prod.mk.injEq] at hstep
+        obtain ⟨_, rfl⟩ := hstep
+        refine ⟨[⟨.text, t.data, []⟩], by simp [Token.render], by intro k hk; simp at hk; subst hk; simp [SegOK], ?_, ?_⟩
+        · rw [textOf_cons, textOf_cons, tagCount_cons, tagCount_cons, htt]; simp [isTag, htt, textOf, tagCount, tt_beq]
+        · rw [textOf_cons, textOf_cons, htt]
+      · by_cases htag : isTag t = true
+        · obtain ⟨k, hr, hseg, hor⟩ := quiet_tag_step_sp hp hs (hwf t (by simp)) hq (hc t (by simp)) htag hstep
+          have htne : (t.tt == TT.text) = false := by
+            revert htt; cases t.tt <;> intro htt <;> first | rfl | exact absurd rfl htt
+          refine ⟨[k], by simpa using hr, by intro x hx; simp at hx; subst hx; exact hseg, ?_, ?_⟩
+          · rw [textOf_cons, textOf_cons, tagCount_cons, tagCount_cons, htne, htag]
+            rcases hor with ⟨hkt, hkd⟩ | hk
+            · have : isTag k = false := by unfold isTag; rw [hkt]; rfl
+              simp [hkt, hkd, this, textOf, tagCount, tt_beq]
+            · have hkne : (k.tt == TT.text) = false := by
+                unfold isTag at hk; revert hk; cases k.tt <;> intro hk <;> first | rfl | exact absurd hk (by decide)
+              simp [hkne, hk, textOf, tagCount]
+          · rw [textOf_cons, textOf_cons, htne]
+            rcases hor with ⟨hkt, hkd⟩ | hk
+            · simp [hkt, hkd, textOf, noSpaces, tt_beq]
+            · have hkne : (k.tt == TT.text) = false := by
+                unfold isTag at hk; revert hk; cases k.tt <;> intro hk <;> first | rfl | exact absurd hk (by decide)
+              simp [hkne, textOf]
+        · -- a comment or doctype: nothing is written by a plain policy
+          have hcd : t.tt = .comment ∨ t.tt = .doctype := by
+            unfold isTag at htag
+            revert htt htag; cases t.tt <;> intro htt htag
+            · exact absurd rfl htt
+            · exact absurd (by decide) htag
+            · exact absurd (by decide) htag
+            · exact absurd (by decide) htag
+            · exact .inl rfl
+            · exact .inr rfl
+          have hws : ws = [] := by
+            unfold Policy.step at hstep
+            rcases hcd with h | h
+            · simp only [h, hp.noComments, Bool.false_eq_true, ↓reduceIte, Option.some.injEq, Prod.mk.injEq] at hstep
+              exact hstep.2.symm
+            · simp only [h, Option.some.injEq, Prod.mk.injEq] at hstep
+              exact hstep.2.symm
+          subst hws
+          have htne : (t.tt == TT.text) = false := by
+            rcases hcd with h | h <;> rw [h] <;> rfl
+          have htagf : isTag t = false := by simpa using htag
+          refine ⟨[], rfl, by simp, ?_, ?_⟩
+          · rw [textOf_cons, tagCount_cons, htne, htagf]; simp [textOf, tagCount]
+          · rw [textOf_cons, htne]; simp [textOf]
+    obtain ⟨k1, hr1, hs1, hm1, hn1⟩ := hthis
+    refine ⟨k1 ++ k2, ?_, ?_, ?_, ?_⟩
+    · unfold Policy.run; simp only [hstep]; simp [hr1, hr2]
+    · intro k hk; simp only [List.mem_append] at hk
+      rcases hk with h | h
+      · exact hs1 k h
+      · exact hs2 k h
+    · have e : t :: ts = [t] ++ ts := rfl
+      rw [e, textOf_append, textOf_append, tagCount_append, tagCount_append, List.length_append, List.length_append]
+      omega
+    · have e : t :: ts = [t] ++ ts := rfl
+      rw [e, textOf_append, textOf_append, noSpaces_append, noSpaces_append, hn1, hn2]
+
+/-- **C06, the added-space clause (byte level)**: for a plain policy with AddSpaceWhenStrippingTag
+    and an input free of script/style/skip-content elements, the text re-read from the output is
+    the input's text plus exactly one space per removed tag: the texts agree once spaces are
+    removed, and text length + number of tags is the same on both sides. -/
+theorem C06_bytes_spaces (p : Policy) (hp : Plain p.ensureInit) (hs : p.ensureInit.addSpaces = true) (input : Bytes)
+    (hc : ∀ t ∈ tokenize input, CalmTok p.ensureInit t) :
+    let to := tokenize (p.sanitizeCore input)
+    let ti := tokenize input
+    noSpaces (textOf to) = noSpaces (textOf ti) ∧
+    (textOf to).length + tagCount to = (textOf ti).length + tagCount ti := by
+  obtain ⟨toks, hr, hseg, hm, hn⟩ :=
+    run_text_sp hp hs (tokenize input) (tokenize_wf input) hc {} ⟨rfl, rfl⟩ stackInv_init
+  have hb : p.sanitizeCore input = renderAll toks := by
+    unfold Policy.sanitizeCore Policy.sanitizeTokens
+    rw [hr, flatten_map_render]
+  simp only
+  rw [hb, tokenize_renderAll toks hseg, textOf_coalesce, tagCount_coalesce]
+  simp only [List.nil_append]
+  exact ⟨hn, hm⟩
+
 /-- non-vacuity: the hypotheses of `C06_bytes` are met by a concrete policy and input with
     kept tags, dropped tags and entities -/
 example :
